@@ -1,7 +1,7 @@
 INIT Init
 NEXT Next
 CONSTANTS
-  Lens1 = {1, 17, 18, 40}
+  Lens1 = {1, 17, 18, 40, 66, 130}
   Lens2 = {0, 18}
   Mixed = FALSE
   CpsMode = FALSE
